@@ -255,6 +255,12 @@ def setup():
     return 0
 
 
+def tvrun_prefixes():
+    sys.path.insert(0, os.path.join(VERIF, "tv"))
+    import tvrun
+    return tvrun.HOST_EVENT_PREFIXES
+
+
 def replay(pid, path):
     obj = json.load(open(path))
     if obj.get("engine") == "kani":
@@ -333,10 +339,11 @@ def replay(pid, path):
                 p = e.split()
                 if p[0] == "call":
                     got.append(p[1] + " " + " ".join(p[3:] if p[1] in ("eat", "peek") else p[2:]))
-                elif p[0].startswith(("emit", "pure", "msub")):
+                elif p[0].startswith(tvrun_prefixes()):
                     got.append(e)
             print("reference trace:", want, "real:", got)
-            again = want != got
+            import tvrun
+            again = len(want) != len(got) or any(not tvrun.same_event(w, g) for w, g in zip(want, got))
         elif obj["kind"] == "ledger":
             import tvrun
             ok, det = tvrun.confirm_ledger(real["out"])
